@@ -696,6 +696,24 @@ def gen_skip_template(rng: random.Random):
                        [("id", "EOI", None)], []])
     rules = {"r": (rng.choice(["@", "$", "@", ""]), ("seq", [skipper, *tail]) if tail else skipper),
              "w": ("", ("choice", [("str", x) for x in stops])), **rules_extra}
+    u = rng.random()
+    if u < 0.2:
+        # chained: the operand of the predicate is a rule that is itself a skip shape (and becomes a SkipUntil first)
+        rules["st2"] = (rng.choice(["@", "@", "_", ""]), ("rep", ("group", ("seq", [("not", ("str", rng.choice(stops))), ("id", "ANY", None)]), None)))
+        rules["r2"] = (rng.choice(["@", "$"]), ("seq", [("rep", ("group", ("seq", [("not", ("id", "st2", None)), ("id", "ANY", None)]), None)),
+                                                     ("rep", ("id", "ANY", None))]))
+    elif u < 0.35:
+        # a grammar rule that merely happens to be called SKIP, with a skip-shaped body, next to real trivia
+        rules["SKIP"] = (rng.choice(["", "", "_", "@"]), skipper)
+        rules["r3"] = ("", ("seq", [("id", "SKIP", None), ("opt", ("group", ("choice", [("str", x) for x in stops]), None))]))
+        rules["WHITESPACE"] = ("_", ("str", " "))
+        return rules
+    elif u < 0.5:
+        # explicit references to a silent multi-item WHITESPACE from atomic and non-atomic rules
+        rules["WHITESPACE"] = ("_", rng.choice([("seq", [("str", " "), ("str", "b")]), ("seq", [("str", "a"), ("str", "b")]),
+                                                 ("choice", [("seq", [("str", " "), ("str", " ")]), ("str", "c")])]))
+        rules["r4"] = (rng.choice(["", "", "@", "$", "!"]), ("seq", [("str", "a"), ("id", "WHITESPACE", None), ("str", "c")]))
+        return rules
     if rng.random() < 0.4:
         rules["WHITESPACE"] = ("_", ("str", " "))
     return rules
